@@ -145,6 +145,11 @@ type c38Machine struct {
 	// what the disk holds, following the storage calls that were applied:
 	// wallet -> member index -> marshalled signer (last write wins)
 	storage map[int]map[group.MemberIndex][]byte
+	// what must survive, following the API: registerSigner returned nil for
+	// (wallet, member) and no archival of the wallet was applied or reported
+	// successful since (a later applied write of the same member replaces the
+	// key material to expect)
+	registered map[int]map[group.MemberIndex][]byte
 
 	// statistics
 	archives, crashes, failures, restarts, reRegisteredAfterArchive, overwrites int
@@ -304,6 +309,26 @@ func (m *c38Machine) afterRestart() {
 			}
 		}
 	}
+	// the other direction: everything registered successfully (API returned
+	// nil) and not archived must have come back, whatever the storage calls were
+	for w := range m.wallets {
+		signers := m.reg.getSigners(m.wallets[w].pk)
+		for idx, rec := range m.registered[w] {
+			found := false
+			for _, s := range signers {
+				if s.signingGroupMemberIndex != idx {
+					continue
+				}
+				got, err := s.Marshal()
+				if err == nil && bytes.Equal(got, rec) {
+					found = true
+				}
+			}
+			if !found {
+				m.fail("after restart: registerSigner had returned success for wallet %d member %d and the wallet was not archived, but the restarted registry does not hold that signer with its key material (%d signers loaded)", w, idx, len(signers))
+			}
+		}
+	}
 	m.lookups("after restart")
 }
 
@@ -331,7 +356,7 @@ func TestVerif_C38_WalletRegistry(t *testing.T) {
 			t.Fatalf("VERIF-INCONCLUSIVE: %v", err)
 		}
 		defer os.RemoveAll(dir)
-		m := &c38Machine{t: t, dir: dir, shares: shares, storage: map[int]map[group.MemberIndex][]byte{}, archivedOnce: map[int]bool{}}
+		m := &c38Machine{t: t, dir: dir, shares: shares, storage: map[int]map[group.MemberIndex][]byte{}, registered: map[int]map[group.MemberIndex][]byte{}, archivedOnce: map[int]bool{}}
 		// three wallets with generated keys
 		used := map[uint64]bool{}
 		for w := 0; w < 3; w++ {
@@ -347,6 +372,7 @@ func TestVerif_C38_WalletRegistry(t *testing.T) {
 			}
 			m.wallets = append(m.wallets, c38Wallet{pk: &ecdsa.PublicKey{Curve: tecdsa.Curve, X: x, Y: y}, operators: ops})
 			m.storage[w] = map[group.MemberIndex][]byte{}
+			m.registered[w] = map[group.MemberIndex][]byte{}
 		}
 		m.open()
 		m.afterRestart()
@@ -381,12 +407,17 @@ func TestVerif_C38_WalletRegistry(t *testing.T) {
 							m.overwrites++
 						}
 						m.storage[w][idx] = rec
+						if _, ok := m.registered[w][idx]; ok {
+							m.registered[w][idx] = rec
+						}
 					}
+				}
+				if err == nil && !crashed {
+					m.registered[w][idx] = rec
 				}
 				if outcome == "fail" {
 					m.failures++
 				}
-				_ = err // reporting of storage errors to the caller is not part of this property
 				if crashed {
 					m.crashes++
 					m.crashSinceRestart = true
@@ -404,6 +435,7 @@ func TestVerif_C38_WalletRegistry(t *testing.T) {
 					for k := range m.wallets {
 						if a == "archive "+m.dirOf(k) {
 							m.storage[k] = map[group.MemberIndex][]byte{}
+							m.registered[k] = map[group.MemberIndex][]byte{}
 							m.archives++
 							m.archivedOnce[k] = true
 							m.archiveSinceRestart = true
@@ -413,7 +445,9 @@ func TestVerif_C38_WalletRegistry(t *testing.T) {
 				if wasStored && outcome == "fail" {
 					m.failures++
 				}
-				_ = err
+				if err == nil && !crashed {
+					m.registered[w] = map[group.MemberIndex][]byte{}
+				}
 				if crashed {
 					m.crashes++
 					m.crashSinceRestart = true
